@@ -15,6 +15,7 @@ pub use self::snapshot::{
     SnapshotArcOriginIter, SnapshotArcRouterKeyIter,
 };
 pub use self::validation::ValidationReport;
+#[cfg(routinator_verif)] pub use self::info::PublishInfo;
 
 mod delta;
 mod history;
